@@ -16,3 +16,32 @@ Lemma model_dir_guards : forall v m d,
   outcome_of {| r_via := v; r_meth := m; r_dir := d; r_shape := Fine; r_opt := NoOpt |} =
   if (match v with Fn => fn_dir_raises m d | Tr => tr_dir_raises m d end) then Raise else Performs m d.
 Proof. intros [] [] []; reflexivity. Qed.
+
+(* ---- shape guards ---------------------------------------------------------
+   fn_shape_raises / tr_shape_raises are the `if <test on rows, cols>: raise`
+   statements of the transform functions and of Transform._verify_some_inputs,
+   evaluated by the translator on the dimensions of every shape class. *)
+Definition is_raise (o : outcome) : bool := match o with Raise => true | _ => false end.
+
+(* on every shape class that is part of the request space for the method, the
+   function raises on shape grounds exactly when the model says so *)
+Lemma fn_shape_guards_eq : forall m sh,
+  shape_applies Fn m sh = true ->
+  fn_shape_raises m sh = is_raise (fn_outcome m Inverse sh NoOpt).
+Proof. intros [] []; cbn; intros H; try reflexivity; discriminate H. Qed.
+
+(* Transform rejects 1-D data and images of at most two rows before anything
+   else, for every method and direction, and no other shape class *)
+Lemma tr_shape_guards_eq : forall sh,
+  tr_shape_raises sh = match sh with OneD | TwoRows => true | _ => false end.
+Proof. intros []; reflexivity. Qed.
+
+Lemma model_tr_shape_guards : forall m d o sh,
+  tr_shape_raises sh = true -> tr_outcome m d sh o = Raise.
+Proof. intros m d o []; cbn; intros H; try discriminate H; reflexivity. Qed.
+
+(* a shape that passes Transform's own guard is judged by the function's guard *)
+Lemma model_tr_then_fn_shape : forall m sh,
+  shape_applies Tr m sh = true -> tr_shape_raises sh = false ->
+  is_raise (tr_outcome m Inverse sh NoOpt) = is_raise (fn_outcome m Inverse sh NoOpt).
+Proof. intros [] []; cbn; intros H1 H2; try reflexivity; try discriminate H1; discriminate H2. Qed.
